@@ -213,6 +213,26 @@ func generate(thorough bool, emit func(kase)) {
 		for _, k := range []bool{false, true} {
 			emit(kase{Family: "multi-record-hello", Desc: "plain 60 kB", Keys: k, First: tlsref.FragmentMax(0x0301, bigPlain.Msg())})
 		}
+		// a hello in several records whose SECOND or THIRD record has a size around the limits (2^14 the plaintext limit, 2^14+256
+		// what this package admits for a record, one more): whatever is decided about such a record, it is decided by a value
+		for _, pos := range []int{1, 2} {
+			for _, size := range []int{16383, 16384, 16385, 16500, 16639, 16640, 16641} {
+				h := baseOuter()
+				h.Exts = []tlsref.Ext{tlsref.SNI(pubName), tlsref.SupportedVersions(0x0304), tlsref.Opaque(0x6b6b, 50000)}
+				msg := h.Msg()
+				cuts := []int{100}
+				if pos == 2 {
+					cuts = append(cuts, 200)
+				}
+				cuts = append(cuts, cuts[len(cuts)-1]+size)
+				for o := cuts[len(cuts)-1] + 16000; o < len(msg); o += 16000 {
+					cuts = append(cuts, o) // (the rest in ordinary records)
+				}
+				for _, keys := range []bool{false, true} {
+					emit(kase{Family: "multi-record-hello-later-record-at-the-size-limit", Desc: fmt.Sprintf("record %d of the hello carries %d bytes keys=%v", pos+1, size, keys), Keys: keys, First: tlsref.Fragment(0x0301, msg, cuts...), Ops: []op{{Dir: 'c'}, {Dir: 'c'}}})
+				}
+			}
+		}
 		// a 64 kB hello in ONE-BYTE handshake records (390 kB on the wire), passed through without keys: once the backend has read
 		// it - and a few more records have flowed - the Conn holds a small multiple of the hello, not of what travelled
 		{
